@@ -136,7 +136,11 @@ func runAPICalls(c APICase, calls []APICall, res *APIResult) []apiObs {
 			var e error
 			switch call.Op {
 			case "Start":
-				e = st.Start(seedFor(c.Seed, "api", c.Me))
+				sd := seedFor(c.Seed, "api", c.Me)
+				if call.K == "short" {
+					sd = sd[:31]
+				}
+				e = st.Start(sd)
 			case "NextTimeout":
 				e = st.NextTimeout()
 			case "End":
